@@ -342,6 +342,13 @@ func (f File) Generate(inputWriter io.Writer, settings GenerateSettings) error {
 			}
 		}
 	}
+	// f is a copy of the caller's File, but its slices share the caller's
+	// backing arrays: never append to them in place.
+	f.Consts = f.Consts[:len(f.Consts):len(f.Consts)]
+	f.Structs = f.Structs[:len(f.Structs):len(f.Structs)]
+	f.Unions = f.Unions[:len(f.Unions):len(f.Unions)]
+	f.Messages = f.Messages[:len(f.Messages):len(f.Messages)]
+	f.Enums = f.Enums[:len(f.Enums):len(f.Enums)]
 	imports := []string{}
 	potentialImports := []string{}
 	settings.importTypeAliases = make(map[string]string)
